@@ -159,6 +159,9 @@ func allocOneInner(c *vcore.Ctx, prop string, env *world.PluginEnv, ac *allocCas
 			c.Outcome("finite")
 		}
 	}
+	if prop == "C07" && c.WantSample() && capacity > 1 && capacity != math.MaxInt && st.hasNUMA() {
+		c.Sample(map[string]any{"case": ac, "reported_capacity": capacity})
+	}
 	if prop == "C07" {
 		// zero-capacity nodes are not offered; total is the saturating sum
 		if _, offered := capResp.NodeDeployCapacityMap[node]; offered && capacity == 0 {
